@@ -393,7 +393,7 @@ E2E_KIND = {'crossed': 'crossed_eof_leak'}
 
 def classify(sc, bad):
     if 'race' in sc:
-        return 'dest_socket_after_loss' if sc['race'] == 'dest' else 'listener_after_loss'
+        return 'dest_socket_after_loss' if sc['race'].startswith('dest') else 'listener_after_loss'
     names = [s[0] for s in sc['steps']]
     if sc.get('template') == 'crossed':
         return 'crossed_eof_leak'
@@ -403,6 +403,17 @@ def classify(sc, bad):
 
 
 def stage_e2e(ctx):
+    import logging
+    alog = logging.getLogger('asyncio')
+    old_level = alog.level
+    alog.setLevel(logging.ERROR)      # "socket.send() raised exception" when an endpoint resets mid-stream
+    try:
+        _stage_e2e(ctx)
+    finally:
+        alog.setLevel(old_level)
+
+
+def _stage_e2e(ctx):
     rng = ctx.rng
     quick = ctx.tier == 'quick'
     workdir = _workdir(ctx.work)
@@ -418,11 +429,11 @@ def stage_e2e(ctx):
                                                                ['rst', 'c'], ['settle', 30], ['release'], ['settle', 40]]})
         scs.append({'fwd': f, 'template': 'early', 'steps': [['hold'], ['connect'], ['send', 'c', 12, 2], ['eof', 'c'], ['settle', 30],
                                                                ['release'], ['sync'], ['send', 'd', 7, 3], ['eof', 'd'], ['sync']]})
-    extra = 20 if quick else 400
+    extra = 20 if quick else 1200
     for _ in range(extra):
         scs.append(E.gen_scenario(rng))
     races = []
-    for kind in ('listen_client', 'listen_server', 'listen_server_unix', 'dest'):
+    for kind in ('listen_client', 'listen_server', 'listen_server_unix', 'dest', 'dest_gated'):
         for turns in ((0, 1, 3) if quick else (0, 1, 2, 3, 5, 8)):
             races.append({'race': kind, 'turns': turns})
     nonrepro = 0
@@ -431,8 +442,8 @@ def stage_e2e(ctx):
     failed_by = {}
     for sc in scs + races:
         name = sc.get('template') or ('race_' + sc['race'])
-        if failed_by.get(name, 0) >= 2:
-            # circuit breaker: two reproduced failures of this template are enough, each costs backstop time
+        if failed_by.get(name, 0) >= 2 or sum(failed_by.values()) >= 4:
+            # circuit breaker: each reproduced failure costs backstop time; two per template, four in all are enough
             ctx.count('e2e_skipped_after_failures')
             tcount[name] = tcount.get(name, 0) + 1
             continue
@@ -447,6 +458,7 @@ def stage_e2e(ctx):
             bad2, _ = run_e2e_once(sc, workdir)
             if bad2:
                 failed_by[name] = failed_by.get(name, 0) + 1
+                ctx.log('e2e failure reproduced:', name, sc.get('fwd', ''), '; '.join(bad2)[:300])
                 ctx.failing_input('end to end (%s): %s' % (name + ('/' + sc['fwd'] if 'fwd' in sc else ''), '; '.join(bad2)),
                                   {'kind': classify(sc, bad2), 'scenario': sc})
             else:
